@@ -163,6 +163,33 @@ def setMtuUnrepaired (k : Kcp) (mtu : Int) : Kcp × Int :=
     let m := BitVec.ofInt 32 mtu
     ({ k with mtu := m, mss := m - u32 IKCP_OVERHEAD, bufLen := (mtu.toNat + IKCP_OVERHEAD) * 3 }, 0)
 
+/-- the repaired `SetMtu` refuses no more than it must: for every value that fits a `uint32`, it accepts exactly
+when installing the value (what the unrepaired code always did) gives a state satisfying the invariant -/
+theorem C10_core_setMtu_refuses_only_unhonourable (k : Kcp) (m : Int) (h1 : (IKCP_OVERHEAD : Int) < m)
+    (h2 : m < 4294967296) :
+    (setMtu k m).2 = 0 ↔ InvMss (setMtuUnrepaired k m).1 := by
+  have hun : setMtuUnrepaired k m = ({ k with
+      mtu := BitVec.ofInt 32 m, mss := BitVec.ofInt 32 m - u32 IKCP_OVERHEAD,
+      bufLen := (m.toNat + IKCP_OVERHEAD) * 3 }, 0) := by
+    unfold setMtuUnrepaired; rw [if_neg (by omega)]
+  have hnat : ((BitVec.ofInt 32 m).toNat : Int) = m := by
+    simp only [BitVec.toNat_ofInt]; simp only [IKCP_OVERHEAD] at h1; omega
+  rw [hun]
+  constructor
+  · intro h
+    exact setMtu_installed_inv k m ((setMtu_accept_iff k m).mp h)
+  · intro h
+    apply (setMtu_accept_iff k m).mpr
+    have hle := h.mtu_le
+    have hmss := h.mss_toNat
+    change (BitVec.ofInt 32 m).toNat ≤ mtuLimit + IKCP_OVERHEAD at hle
+    change (BitVec.ofInt 32 m - u32 IKCP_OVERHEAD).toNat = (BitVec.ofInt 32 m).toNat - IKCP_OVERHEAD at hmss
+    refine ⟨h1, by omega, ?_⟩
+    intro s hs
+    have := h.segs s hs
+    change s.data.length ≤ (BitVec.ofInt 32 m - u32 IKCP_OVERHEAD).toNat at this
+    omega
+
 /-- a core with one full-size segment (1376 bytes) queued and the congestion window opened by a first flush -/
 def c10kq : Kcp := (flush (send (Kcp.new 7) (List.replicate 1376 0x55)).k true 0).k
 
